@@ -22,6 +22,8 @@ NOTES = ('ctx-extra', 'cbn')   # regression notes, never a verdict (DESIGN 6/C09
 def props_of(cls):
     if cls in ('fault-ctx-nil', 'fault-ctx-missing'):
         return ['C07', 'C09']
+    if cls == 'fault-grammar':
+        return ['C07', 'C01']      # something delivered after a terminal notification, in a run with an injected fault
     if cls.startswith('fault-'):
         base = cls.split('-', 1)[1]
         return [] if base in NOTES or base == 'catalogue' else ['C07']
